@@ -36,7 +36,8 @@ RULE = ("random histories of 2-30 steps over {call, acked/unacked publish, subsc
         "replies x final ok/ERROR (all three also in the random histories); sessions with a payload codec (stub IPayloadCodec, enc_algo x_c04): every "
         "call/publish option, progressive shapes and reply permutations with encoded requests and encoded RESULT/ERROR/EVENT payloads (20% of the random "
         "sessions); call cancellation: cancel() before/after progress x router answer {RESULT, ERROR canceled, progress+RESULT, progress+ERROR, nothing} x "
-        "position among the other replies x repeated cancel (also random). A case is non-trivial when at least one "
+        "position among the other replies x repeated cancel (also random); progressive RESULTs nobody asked for: calls without "
+        "CallOptions / with CallOptions lacking on_progress x chunk shapes x 1-2 chunks x final ok/ERROR (also random). A case is non-trivial when at least one "
         "router reply/unmatched reply was delivered and compared; distinct = hash(framework, transport config, step list).")
 ASSUMPTIONS = [
     "the scripted router only sends messages a conforming router could send, except for the final 'violate' step",
@@ -67,9 +68,12 @@ ASSUMPTIONS = [
     "cancellation: fut.cancel()/d.cancel() of a pending call must put exactly one CANCEL [49, id, {mode?}] with the call's id on the wire (none when repeated), complete the "
     "future once as cancelled and keep the call's record until the router's terminal reply; a later RESULT / ERROR / progressive RESULT for it is absorbed (transport up, "
     "future unchanged, on_progress 0 or 1 times), a second terminal reply is a protocol violation as for any answered call",
+    "a progressive RESULT for a pending call that has no progress handler (no receive_progress in the CALL) is not that call's reply: it must not complete the call or "
+    "touch anything else; ignoring it and failing the transport as a PROTOCOL violation (close 1002 / drop / abort) are both accepted, an internal error (close 1011) is "
+    "not; where the close code is invisible (failByDrop, RawSocket) a failed transport is accepted; if the session survives, the genuine final reply must complete the call",
     "pending-table sizes (_call_reqs ...) and txaio.resolve/reject attempt counts are hooks for leak / double-completion detection",
     "the 2^53 boundary is reached by presetting IdGenerator._next after the join",
-    "not generated (grey zones): float timeouts, an unsubscribe of the last handler racing with an in-flight subscribe to the same subscription id, progressive results for calls without on_progress, "
+    "not generated (grey zones): float timeouts, an unsubscribe of the last handler racing with an in-flight subscribe to the same subscription id, "
     "reserved kwarg names of CallResult/ApplicationError, real payload encryption (KeyRing), "
     "correlation_* options (never serialized), forward_for entries with authid None (accepted by CallOptions, refused by PublishOptions)",
 ]
@@ -95,10 +99,11 @@ DECIDING = {
     "own_reply_completions_after_inflight_delivery": 200,
     "codec_requests_compared": 500, "codec_replies_encoded": 300,
     "cancels_issued": 200, "cancel_messages_compared": 200, "repeated_cancels_checked": 30, "replies_to_cancelled_call": 200,
+    "unsolicited_progress_delivered": 200, "unsolicited_progress_classes": 2, "final_replies_after_unsolicited_progress": 50,
     "cancelled_call_replies": 3, "outstanding_across_reply_to_cancelled": 300, "own_reply_completions_after_absorbed_reply": 200,
 }
 
-DISTINCT_DECIDING = ("sync_reply_kinds", "object_form_option_sources", "cancelled_call_replies")      # sizes of distinct sets, not counters
+DISTINCT_DECIDING = ("sync_reply_kinds", "object_form_option_sources", "cancelled_call_replies", "unsolicited_progress_classes")      # sizes of distinct sets, not counters
 
 SERIALIZERS = ["json", "cbor", "msgpack", "ubjson"]
 RS_MAX_EXP = 12
@@ -490,6 +495,19 @@ class Gen:
         self.steps.append({"op": kind + "_obj", "n": lab, "opts": call_opts, "methods": methods})
         return [m["n"] for m in methods]
 
+    def unsolicitable(self):
+        """Pending calls without a progress handler (not cancelled, not part of an object-form call)."""
+        return sorted(l for l, p in self.pending.items() if p["kind"] == "call" and not p.get("on_progress") and not p.get("cancelled"))
+
+    def unsolicited(self, label=None, shape=None):
+        """A progressive RESULT bearing the id of a call that did not ask for progressive results."""
+        label = label or self.rng.choice(self.unsolicitable())
+        a, k = self.pay.reply("u%d" % label, shape)
+        st = {"op": "reply", "to": label, "mode": "progress", "unsolicited": True, "args": a, "kwargs": k}
+        if self.cfg.get("codec") and self.rng.random() < 0.5:
+            st["enc"] = True
+        self.steps.append(st)
+
     def cancellable(self, again=False):
         return sorted(l for l, p in self.pending.items() if p["kind"] == "call" and not p.get("obj") and bool(p.get("cancelled")) == again)
 
@@ -682,12 +700,16 @@ def gen_history(rng):
             acts += ["zevent"] * 3
         if g.zombie_regs:
             acts += ["zinvoke"] * 3
+        if g.unsolicitable() and rng.random() < 0.35:
+            acts += ["unsolicited"]
         if g.cancellable():
             acts += ["cancel"] * 2
         if g.cancellable(again=True):
             acts += ["cancel-again"]
         a = rng.choice(acts)
-        if a == "cancel":
+        if a == "unsolicited":
+            g.unsolicited()
+        elif a == "cancel":
             g.cancel()
         elif a == "cancel-again":
             g.cancel(rng.choice(g.cancellable(again=True)))
@@ -1257,6 +1279,44 @@ def cancel_case(spec, i, cfg):
     return g.case()
 
 
+# -- enumerated: progressive RESULT for a call that has no progress handler -----------------------------------------------------
+UNSOLICITED_OPTS = [None, {}, {"details": True}, {"timeout": 7}, {"details": False, "transaction_hash": "h"}]
+
+
+def unsolicited_cases():
+    out = []
+    for oi in range(len(UNSOLICITED_OPTS)):
+        for shape in ("one", "none", "both", "kw"):
+            for final in ("ok", "error"):
+                for nchunks in (1, 2):
+                    out.append((oi, shape, final, nchunks))
+    return out
+
+
+def unsolicited_case(spec, i, cfg):
+    oi, shape, final, nchunks = spec
+    g = Gen(random.Random(29000 + i), cfg)
+    other = g.issue("call", opts={"on_progress": True})       # a call that DID ask for progress: must see only its own chunks
+    pb = g.issue("publish")
+    c = g.issue("call", opts=UNSOLICITED_OPTS[oi], shape="one" if i % 2 else None)
+    sub = g.issue("subscribe")
+    if i % 3 == 0:
+        g.reply(other, "progress", "both")
+    for j in range(nchunks):
+        g.unsolicited(c, shape)
+        if j == 0:
+            g.reply(pb, "ok")
+    g.reply(other, "progress", "kw")
+    g.reply(c, final)                                           # the genuine final reply must complete the call
+    g.reply(sub, "ok")
+    g.reply(other, "ok")
+    late = g.issue("call")
+    g.reply(late, "ok")
+    if i % 4 == 0:
+        g.steps.append({"op": "violate", "cls": "duplicate", "to": c, "variant": "progress-after-final", "salt": i})
+    return g.case()
+
+
 def codec_cases():
     """Every call / publish option under a payload codec, plus reply-order permutations with encoded replies."""
     out = [("opt", i) for i, (kind, o) in enumerate(option_cases()) if kind in ("call", "publish")]
@@ -1300,6 +1360,8 @@ def enumerated(tier):
         items += [("inflight", (i, j)) for i in range(len(inflight_cases()))]
     for j in range(3 if tier == "quick" else 10):
         items += [("cancel", (i, j)) for i in range(len(cancel_cases()))]
+    for j in range(3 if tier == "quick" else 10):
+        items += [("unsolicited", (i, j)) for i in range(len(unsolicited_cases()))]
     for j in range(2 if tier == "quick" else 6):
         items += [("codec", (i, j)) for i in range(len(codec_cases()))]
     items += [("idwrap", (i,)) for i in range(40 if tier == "quick" else 200)]
@@ -1331,6 +1393,10 @@ def build(item):
     if fam == "objform":
         i, j = a
         return objform_case(objform_cases()[i], i + 11 * j, cfg_rot(i + 3 * j))
+    if fam == "unsolicited":
+        i, j = a
+        # first two passes over WebSocket with failByDrop=False (the close code tells a protocol violation from an internal error)
+        return unsolicited_case(unsolicited_cases()[i], i + 7 * j, cfg_rot((0 if i % 2 else 8) if j == 0 else (3 if j == 1 else i + 3 * j)))
     if fam == "cancel":
         i, j = a
         return cancel_case(cancel_cases()[i], i + 7 * j, cfg_rot(i + 3 * j) if j != 1 else cfg_codec(i))
